@@ -196,6 +196,7 @@ def DEPS(count=False, wrapper=False):
                 for name, fc in sel.fns.items():
                     fc.props = ()
                     for c in fc.ensures:
+                        c.iprops = tuple(c.props)
                         c.props = ()
                     # bodies of the dependency are verified once, in the `deps` unit; elsewhere only their
                     # contracts are used (modular verification), so the bodies are not re-verified
